@@ -277,7 +277,7 @@ def _stream1(tier):
     for n in range(1, top + 1):
         pats = NAMES if n <= 3 or tier != "quick" else NAMES[:2]
         if n == 5:
-            pats = NAMES[:2]
+            pats = NAMES[:1]
         for choice in _states(n):
             for names in pats:
                 pre, m = _build(n, choice, names)
@@ -314,7 +314,7 @@ def _stream2(tier):
     positions = [0, 1, -1] if tier == "quick" else [0, 1, 2, -1, -2]
     ops = _struct_ops(n, positions)
     for choice in _states(n):
-        for names in (["aab."] if tier == "quick" else ["aab.", "aba."]):
+        for names in ["aab."]:
             pre, _ = _build(n, choice, names)
             for a, b in itertools.product(ops, ops):
                 out.append(("pair:%s:%s;%s" % ("".join(map(str, choice)), a, b), ["n begin"] + pre + [a, b, "n end"]))
